@@ -34,6 +34,30 @@ def gen_plan(ch: Chooser, tier: str) -> dict[str, Any]:
                                    max_failures=3, api_faults=False)
     for rule in plan['net']['rules']:
         rule.setdefault('match', {})['to_t'] = plan['faults_stop']
+    if ch.bool(0.2):
+        # targeted history: an update cycle is cut by a kill after its progress has been written, the edit is reverted
+        # while the operator is down, and the new process finds the leftovers under a cause that may select nothing
+        op1 = plan['operators'][0]
+        name = ch.choice(sorted({o['body']['metadata']['name'] for o in plan['objects']}) or ['w0'])
+        if not plan['objects']:
+            return plan
+        ups = [h for h in op1['handlers'] if h['kind'] == 'update']
+        if ups:
+            ups[0]['script'] = [{'do': 'temp', 'dur': 0.0, 'delay': ch.choice([3.0, 6.0])}, {'do': 'ok', 'dur': 0.0}]
+        if ch.bool(0.6):
+            op1['handlers'] = [h for h in op1['handlers'] if h['kind'] != 'resume']
+        t0 = plan['faults_stop'] + 2.0
+        dt_kill = ch.choice([0.3, 0.6, 1.2])
+        down = ch.choice([1.0, 4.0])
+        plan['actions'] += [
+            {'t': t0, 'do': 'patch', 'name': name, 'patch': {'spec': {'tt': 1}}, 'essential': True},
+            {'t': round(t0 + dt_kill, 6), 'do': 'kill', 'op': 'op1', 'inflight_lands': True},
+            {'t': round(t0 + dt_kill + down / 2, 6), 'do': 'patch', 'name': name, 'patch': {'spec': {'tt': None}}, 'essential': True},
+            {'t': round(t0 + dt_kill + down, 6), 'do': 'start', 'op': 'op1'},
+        ]
+        plan['actions'].sort(key=lambda a: a['t'])
+        plan['faults_stop'] = round(t0 + dt_kill + down, 6)
+        plan['until'] = plan['faults_stop'] + 120.0
     return plan
 
 
